@@ -69,6 +69,8 @@ def parseHOp (j : Json) : Except String HOp := do
   | "newS" => pure .newS
   | "newD" => pure .newD
   | "run" => pure (.run (gn j "s") (gn j "d") (gn j "shape"))
+  | "mkq" => pure (.mkq (gn j "q") (gn j "s") (gn j "d") (gn j "shape"))
+  | "runq" => pure (.runq (gn j "q"))
   | "dropS" => pure (.dropS (gn j "s"))
   | "dropD" => pure (.dropD (gn j "d"))
   | "gc" => pure .gc
